@@ -269,11 +269,16 @@ pub fn gen_model(rng: &mut Rng, cfg: &GenCfg) -> Built {
     }
     let mut zs = vec![0.0f64];
     if has_basement {
-        zs[0] = -rng.dec(0.5, 4.0, 2);
+        zs[0] = -rng.dec(2.2, 4.0, 2);
     }
     for k in 0..nf {
         let l = *zs.last().unwrap();
-        let h = if k == 0 && has_basement { -zs[0] } else { rng.dec(2.4, 4.5, 2) };
+        // a basement storey is fully or only partly below ground
+        let h = if k == 0 && has_basement {
+            if rng.chance(0.5) { -zs[0] } else { -zs[0] + rng.dec(0.4, 2.0, 2) }
+        } else {
+            rng.dec(2.4, 4.5, 2)
+        };
         zs.push(l + h);
     }
     // presence
@@ -468,7 +473,7 @@ pub fn gen_model(rng: &mut Rng, cfg: &GenCfg) -> Built {
                             }
                         }
                         None => {
-                            let bounds = if below_ground || (z0 < -0.001 && rng.chance(0.8)) {
+                            let bounds = if below_ground || (z0 < -0.001 && rng.chance(0.8)) || (k == 0 && rng.chance(0.04)) {
                                 BoundaryType::GROUND
                             } else if rng.chance(cfg.p_adiabatic) {
                                 BoundaryType::ADIABATIC
@@ -524,11 +529,13 @@ pub fn gen_model(rng: &mut Rng, cfg: &GenCfg) -> Built {
                     }
                     None => {
                         let bounds = if z0 <= 0.001 {
-                            if rng.chance(0.85) {
-                                BoundaryType::GROUND
-                            } else {
-                                BoundaryType::EXTERIOR
+                            match rng.usize(20) {
+                                0 | 1 => BoundaryType::EXTERIOR,
+                                2 => BoundaryType::ADIABATIC,
+                                _ => BoundaryType::GROUND,
                             }
+                        } else if rng.chance(0.15) {
+                            BoundaryType::ADIABATIC
                         } else {
                             BoundaryType::EXTERIOR
                         };
@@ -654,6 +661,12 @@ pub fn gen_model(rng: &mut Rng, cfg: &GenCfg) -> Built {
 
     if !cfg.geometric {
         degeometrize(rng, &mut model, cfg.odd_tilts);
+        // partitions modelled without their neighbour (legal: the link is optional)
+        for w in model.walls.iter_mut() {
+            if w.bounds == BoundaryType::INTERIOR && rng.chance(0.06) {
+                w.next_to = None;
+            }
+        }
     }
     if cfg.unused {
         add_unused(rng, &mut model);
